@@ -166,7 +166,7 @@ Cases ==
        { << "step", ki, op, tk >> : ki \in StepKeys, op \in {1, 2, 5}, tk \in (IF Thorough THEN 1..NTweaks ELSE EdgeTweaks) }
   \cup { << "step", 8, op, tk >> : op \in {1, 2, 5}, tk \in 1..NTweaks }
   \cup { << "step", ki, op, 1 >> : ki \in 1..Len(KeyPool), op \in {3, 4} }
-  \cup { << "rchain", j >> : j \in 1..(IF Thorough THEN 1500 ELSE 30) }
+  \cup { << "rchain", j >> : j \in 1..(IF Thorough THEN 600 ELSE 30) }
   \cup { << "create", v, w >> : v \in { Zero, One, Sub(N, One), N, Add(N, One), KMax256, HalfN, Pow2(255), Mod(FromBytesBE(Rnd32(44)), N), Sub(P, One) }, w \in {0, 1} }
   \cup { << "comb", k, 2, enc >> : k \in 1..Len(CombLists), enc \in {0, 1} }
   \cup { << "comb", k, 1, 0 >> : k \in 1..Len(CombLists) }
